@@ -42,7 +42,7 @@ class Adapter(EnvAdapter):
         # policy keeps every agent walking between already clean tiles, so the episode can only end by the limit
         from harness.envs.base import T_SWEEP_QUICK_FEW, T_SWEEP_THOROUGH_FEW
 
-        ts = (8, 9) + (T_SWEEP_QUICK_FEW if tier == "quick" else T_SWEEP_THOROUGH_FEW)
+        ts = sorted(set((8, 9) + tuple(T_SWEEP_QUICK_FEW if tier == "quick" else T_SWEEP_THOROUGH_FEW)))
         return self._base_configs(tier) + [
             _c(f"r2x4a{1 + t % 2}_t{t}_sweep", "random", 2, 4, 1 + t % 2, t, 0.5, episodes=1, max_steps=t + 2, policies=["shuttle"],
                probe_every=0, props=["C03", "C11"]) for t in ts]
